@@ -443,7 +443,8 @@ def r4(ctx: Ctx) -> None:
                 for key, v in pairs:
                     if key in ("lower_bounds", "upper_bounds"):
                         org = sl_.origins(v, n.id)
-                        hit = any(isinstance(c, ast.Call) and (dotted(c.func) or "").endswith(codec) for c in org["calls"])
+                        hit = any(isinstance(c, ast.Call) and (dotted(c.func) or "").endswith(codec) for c in org["calls"]) or \
+                            any(nm.split(".")[-1] == codec for nm in org["names"])  # the codec passed on as a function value
                         res[key] = res.get(key, False) or hit
         return res
 
